@@ -202,52 +202,62 @@ type tokV2 struct {
 	subj               []int
 	ctx                []tokCtx
 	mut                string
+	fin                bool // `final`: may not be delegated further (chains only)
 }
 
 func tokParseV2(o opLine) tokV2 {
 	t := tokV2{ver: o.int("ver"), iss: o.int("iss"), sgn: o.int("sgn"), sig: o.int("sig"), iat: o.u64("iat"), nbf: o.u64("nbf"), exp: o.u64("exp"),
 		subj: o.ints("subj"), mut: o.kv["mut"]}
-	if s := o.kv["ctx"]; s != "-" && s != "" {
-		for _, p := range strings.Split(s, "|") {
-			cv := strings.SplitN(p, ":", 2)
-			c, err := strconv.Atoi(cv[0])
-			if err != nil || len(cv) != 2 {
-				panic("bad ctx")
-			}
-			x := tokCtx{cnr: c}
-			if cv[1] != "" {
-				for _, v := range strings.Split(cv[1], ".") {
-					n, err := strconv.Atoi(v)
-					if err != nil {
-						panic("bad ctx verb")
-					}
-					x.verbs = append(x.verbs, n)
-				}
-			}
-			t.ctx = append(t.ctx, x)
-		}
-	}
+	t.ctx = tokParseCtx(o.kv["ctx"])
 	return t
 }
 
-func (t tokV2) fields() string {
+func tokParseCtx(s string) (ctx []tokCtx) {
+	if s == "-" || s == "" {
+		return nil
+	}
+	for _, p := range strings.Split(s, "|") {
+		cv := strings.SplitN(p, ":", 2)
+		c, err := strconv.Atoi(cv[0])
+		if err != nil || len(cv) != 2 {
+			panic("bad ctx")
+		}
+		x := tokCtx{cnr: c}
+		if cv[1] != "" {
+			for _, v := range strings.Split(cv[1], ".") {
+				n, err := strconv.Atoi(v)
+				if err != nil {
+					panic("bad ctx verb")
+				}
+				x.verbs = append(x.verbs, n)
+			}
+		}
+		ctx = append(ctx, x)
+	}
+	return ctx
+}
+
+func tokCtxString(ctx []tokCtx) string {
 	var cs []string
-	for _, c := range t.ctx {
+	for _, c := range ctx {
 		var vs []string
 		for _, v := range c.verbs {
 			vs = append(vs, strconv.Itoa(v))
 		}
 		cs = append(cs, strconv.Itoa(c.cnr)+":"+strings.Join(vs, "."))
 	}
-	ctx := "-"
-	if len(cs) > 0 {
-		ctx = strings.Join(cs, "|")
+	if len(cs) == 0 {
+		return "-"
 	}
-	return fmt.Sprintf("ver=%d iss=%d sgn=%d sig=%d iat=%d nbf=%d exp=%d subj=%s ctx=%s mut=%s", t.ver, t.iss, t.sgn, t.sig, t.iat, t.nbf, t.exp, joinInts(t.subj), ctx, t.mut)
+	return strings.Join(cs, "|")
+}
+
+func (t tokV2) fields() string {
+	return fmt.Sprintf("ver=%d iss=%d sgn=%d sig=%d iat=%d nbf=%d exp=%d subj=%s ctx=%s mut=%s", t.ver, t.iss, t.sgn, t.sig, t.iat, t.nbf, t.exp, joinInts(t.subj), tokCtxString(t.ctx), t.mut)
 }
 
 func (w *aclWorldT) v2Body(t tokV2) *protosession.SessionTokenV2_Body {
-	b := &protosession.SessionTokenV2_Body{Version: uint32(t.ver), Lifetime: &protosession.TokenLifetime{Iat: t.iat, Nbf: t.nbf, Exp: t.exp}}
+	b := &protosession.SessionTokenV2_Body{Version: uint32(t.ver), Lifetime: &protosession.TokenLifetime{Iat: t.iat, Nbf: t.nbf, Exp: t.exp}, Final: t.fin}
 	if t.iss != 0 {
 		b.Issuer = w.usr[t.iss].ProtoMessage()
 	}
@@ -306,6 +316,101 @@ func (w *aclWorldT) v2Msg(t tokV2) *protosession.SessionTokenV2 {
 
 func (t tokV2) sigValid() bool {
 	return t.sig == 1 && (t.mut == "none" || (t.mut == "iss" && t.iss == t.sgn))
+}
+
+// ---- V2 with a delegation chain: level 0 is the token presented with the request, level i+1 the origin of level i,
+// the last level the root (its issuer is the account the request is judged as)
+
+type tokChain []tokV2
+
+// `n=<origins> t<i>=iss,sgn,sig,iat,nbf,exp,fin,ver s<i>=subjects c<i>=contexts m<i>=field changed after signing`
+func tokParseChain(o opLine) tokChain {
+	n := o.int("n")
+	if n < 0 || n > 8 {
+		panic("bad chain length")
+	}
+	var ch tokChain
+	for i := 0; i <= n; i++ {
+		k := strconv.Itoa(i)
+		f := o.ints("t" + k)
+		if len(f) != 8 || f[6] > 1 || f[2] > 1 {
+			panic("bad chain level")
+		}
+		mut, ok := o.kv["m"+k]
+		if _, ok2 := o.kv["s"+k]; !ok || !ok2 || o.kv["c"+k] == "" {
+			panic("bad chain level")
+		}
+		ch = append(ch, tokV2{iss: f[0], sgn: f[1], sig: f[2], iat: uint64(f[3]), nbf: uint64(f[4]), exp: uint64(f[5]), fin: f[6] == 1, ver: f[7],
+			subj: o.ints("s" + k), ctx: tokParseCtx(o.kv["c"+k]), mut: mut})
+	}
+	return ch
+}
+
+func (ch tokChain) fields() string {
+	var sb strings.Builder
+	fmt.Fprintf(&sb, "n=%d", len(ch)-1)
+	for i, t := range ch {
+		fin := 0
+		if t.fin {
+			fin = 1
+		}
+		fmt.Fprintf(&sb, " t%d=%d,%d,%d,%d,%d,%d,%d,%d s%d=%s c%d=%s m%d=%s", i, t.iss, t.sgn, t.sig, t.iat, t.nbf, t.exp, fin, t.ver,
+			i, joinInts(t.subj), i, tokCtxString(t.ctx), i, t.mut)
+	}
+	return sb.String()
+}
+
+// chainMsg nests the really signed tokens: every level is signed on its own (the signature covers the body, not the origin)
+func (w *aclWorldT) chainMsg(ch tokChain) *protosession.SessionTokenV2 {
+	var m *protosession.SessionTokenV2
+	for i := len(ch) - 1; i >= 0; i-- {
+		x := w.v2Msg(ch[i])
+		x.Origin = m
+		m = x
+	}
+	return m
+}
+
+func tokSubset(a, b []int) bool {
+	for _, x := range a {
+		if !inList(b, x) {
+			return false
+		}
+	}
+	return true
+}
+
+// tokRefDelegation: the property's reading of "x was delegated by o", written from the rules and not from the code's walk:
+// o names x's issuer, x lives inside o's lifetime, every context of x is covered by o's context for the same container or,
+// failing that, by o's wildcard context.
+func tokRefDelegation(x, o tokV2) bool {
+	if !inList(o.subj, x.iss) || o.nbf > x.nbf || o.exp < x.exp || o.fin {
+		return false
+	}
+	for _, c := range x.ctx {
+		var same, wild *tokCtx
+		for i := range o.ctx {
+			if o.ctx[i].cnr == c.cnr {
+				same = &o.ctx[i]
+			}
+			if o.ctx[i].cnr == 0 {
+				wild = &o.ctx[i]
+			}
+		}
+		switch {
+		case same != nil:
+			if !tokSubset(c.verbs, same.verbs) {
+				return false
+			}
+		case wild != nil:
+			if !tokSubset(c.verbs, wild.verbs) {
+				return false
+			}
+		default:
+			return false
+		}
+	}
+	return true
 }
 
 // ---- bearer (token-level check only; the request-level rules are the `req` lines)
@@ -456,6 +561,50 @@ func tokExec(c *runCtx, w *aclWorldT, line string, o opLine) (handled bool) {
 		if err == nil {
 			c.nontrivial(line)
 		}
+	case "v2c":
+		ch := tokParseChain(o)
+		rv, rc := o.int("rv"), o.int("rc")
+		tok, err := st.svc.VerifySessionTokenMessage(w.chainMsg(ch), sessionv2.Verb(rv), tokCID(rc))
+		cls := tokClass(err)
+		obs := "=> " + cls
+		as := ""
+		if err == nil {
+			as = st.author(common.RequestTokens{Session: &tok}, rc)
+			obs += " as=" + as
+		}
+		c.count("v2c:" + cls)
+		c.count(fmt.Sprintf("v2c-origins:%d:%s", len(ch)-1, cls))
+		c.emit(line, obs)
+		now := uint64(st.tm.t.Unix())
+		admits := false
+		for _, x := range ch[0].ctx {
+			admits = admits || ((x.cnr == 0 || x.cnr == rc) && inList(x.verbs, rv))
+		}
+		// reference validity from the generator's ground truth: EVERY token of the chain signed by its own issuer, every
+		// delegation step covered by the origin, at most MaxDelegationDepth origins, outermost token valid for the request
+		valid := len(ch)-1 <= sessionv2.MaxDelegationDepth && ch[0].iat <= now && ch[0].nbf <= now && now <= ch[0].exp && admits
+		badLevel := -1
+		for i, t := range ch {
+			ok := t.sigValid() && t.iss == t.sgn && t.iss != 0
+			if ok && i+1 < len(ch) {
+				ok = tokRefDelegation(t, ch[i+1])
+			}
+			if !ok && badLevel < 0 {
+				badLevel = i
+			}
+			valid = valid && ok
+		}
+		c.oracleSig("session-token-honoured-only-if-valid-for-request", fmt.Sprintf("v2c origins=%d bad=%d", len(ch)-1, badLevel), !(err == nil && !valid),
+			fmt.Sprintf("delegated V2 token (%d origins) accepted at time %d although level %d of its chain is not valid (signed by its issuer / delegated by its origin): %s", len(ch)-1, now, badLevel, line))
+		root := ch[len(ch)-1]
+		c.oracleSig("request-judged-as-original-issuer-only-if-root-token-signed-by-it", fmt.Sprintf("origins=%d", len(ch)-1),
+			!(err == nil && !(as == strconv.Itoa(root.iss) && root.sigValid() && root.sgn == root.iss)),
+			fmt.Sprintf("request judged as account %s, root token issued by %d signed by %d (signature valid: %v): %s", as, root.iss, root.sgn, root.sigValid(), line))
+		if err == nil && len(ch) > 1 {
+			c.nontrivial(line)
+		}
+	case "v2depth": // the SDK constant the model's chain-depth bound stands for
+		c.emit(line, fmt.Sprintf("=> ok max=%d", sessionv2.MaxDelegationDepth))
 	case "bearer":
 		b := tokParseBearer(o)
 		mut := o.kv["mut"]
@@ -587,11 +736,157 @@ func (st *tokState) mutByte(kind string, pos int, o opLine) string {
 
 // ------------------------------------------------------------------ generator
 
+// tokGenChain builds a VALID delegation chain with n origins at chain time now: the root is issued by one of the accounts
+// 1..3, every further token by an account its origin names; lifetimes and contexts only narrow towards level 0.
+func tokGenChain(c *runCtx, n int, now uint64) tokChain {
+	roots := [][]tokCtx{
+		{{0, []int{2, 3, 5}}},
+		{{1, []int{1, 2, 3}}, {2, []int{2, 3, 5}}},
+		{{0, []int{3, 4}}, {1, []int{2, 3}}},
+		{{1, []int{2, 3, 6}}},
+	}
+	ch := make(tokChain, n+1)
+	cp := func(ctx []tokCtx) []tokCtx {
+		var r []tokCtx
+		for _, x := range ctx {
+			r = append(r, tokCtx{x.cnr, append([]int(nil), x.verbs...)})
+		}
+		return r
+	}
+	for i := n; i >= 0; i-- {
+		t := tokV2{sig: 1, mut: "none"}
+		if i == n {
+			t.iss = 1 + c.rng.IntN(3)
+			t.nbf, t.exp = now-8, now+8
+			t.ctx = cp(roots[c.rng.IntN(len(roots))])
+		} else {
+			o := ch[i+1]
+			t.iss = o.subj[c.rng.IntN(len(o.subj))]
+			t.nbf, t.exp = o.nbf+uint64(c.rng.IntN(2)), o.exp-uint64(c.rng.IntN(2))
+			t.ctx = cp(o.ctx)
+			switch c.rng.IntN(5) {
+			case 0: // drop a verb
+				k := c.rng.IntN(len(t.ctx))
+				if len(t.ctx[k].verbs) > 1 {
+					j := c.rng.IntN(len(t.ctx[k].verbs))
+					t.ctx[k].verbs = append(t.ctx[k].verbs[:j], t.ctx[k].verbs[j+1:]...)
+				}
+			case 1: // drop a context
+				if len(t.ctx) > 1 {
+					k := c.rng.IntN(len(t.ctx))
+					t.ctx = append(t.ctx[:k], t.ctx[k+1:]...)
+				}
+			case 2: // a container of its own under the origin's wildcard
+				if len(t.ctx) == 1 && t.ctx[0].cnr == 0 {
+					t.ctx[0].cnr = 1 + c.rng.IntN(2)
+				}
+			}
+		}
+		t.sgn, t.iat = t.iss, t.nbf
+		t.subj = []int{1 + c.rng.IntN(5)}
+		if c.rng.IntN(3) == 0 {
+			t.subj = append(t.subj, 1+c.rng.IntN(5))
+		}
+		ch[i] = t
+	}
+	return ch
+}
+
+var tokChainDefects = []string{"sig", "sgn", "iss", "exp", "named", "life", "verb", "final", "ver", "nosubj"}
+
+// tokChainDefect plants ONE defect at level l of a valid chain; false if the defect does not apply there.
+func tokChainDefect(c *runCtx, ch tokChain, l int, kind string) bool {
+	t := &ch[l]
+	other := func(a int) int { return 1 + (a+c.rng.IntN(4))%5 } // an account 1..5 different from a
+	switch kind {
+	case "sig": // one bit of the signature flipped
+		t.sig = 0
+	case "sgn": // the token as sent is signed by ANOTHER account's key ("issued by the owner", signed by somebody else)
+		t.sgn = other(t.iss)
+	case "iss": // signed by another account as ITS token, the issuer field replaced afterwards
+		t.sgn, t.mut = other(t.iss), "iss"
+	case "exp": // a signed field changed after signing
+		t.mut = []string{"exp", "nbf", "iat", "ctx", "subj"}[c.rng.IntN(5)]
+	case "named": // the origin does not name this token's issuer
+		if l+1 >= len(ch) {
+			return false
+		}
+		ch[l+1].subj = []int{other(t.iss)}
+	case "life": // lifetime wider than the origin's
+		if l+1 >= len(ch) {
+			return false
+		}
+		if c.rng.IntN(2) == 0 {
+			t.exp = ch[l+1].exp + 1
+		} else {
+			t.nbf = ch[l+1].nbf - 1
+			t.iat = t.nbf
+		}
+	case "verb": // a verb the origin does not have for that container
+		if l+1 >= len(ch) {
+			return false
+		}
+		k := c.rng.IntN(len(t.ctx))
+		t.ctx[k].verbs = append(append([]int(nil), t.ctx[k].verbs...), 7)
+	case "final": // a final token used as an origin
+		if l == 0 {
+			return false
+		}
+		t.fin = true
+	case "ver":
+		t.ver = 1
+	case "nosubj":
+		if l == 0 {
+			t.subj = nil
+		} else {
+			return false
+		}
+	default:
+		panic("defect kind")
+	}
+	return true
+}
+
+func tokChainLine(c *runCtx, ch tokChain) string {
+	rv, rc := 2+c.rng.IntN(2), 1+c.rng.IntN(2)
+	if c.rng.IntN(4) != 0 { // mostly a request the outermost token admits
+		x := ch[0].ctx[c.rng.IntN(len(ch[0].ctx))]
+		rv = x.verbs[c.rng.IntN(len(x.verbs))]
+		if x.cnr != 0 {
+			rc = x.cnr
+		}
+	}
+	return fmt.Sprintf("acl v2c %s rv=%d rc=%d", ch.fields(), rv, rc)
+}
+
+// tokChainGrid: chains of EVERY depth 0..MaxDelegationDepth+1, valid and with every kind of defect at EVERY level; one short
+// sequence per (depth, level) so that a failure shrinks quickly
+func tokChainGrid(c *runCtx, now uint64) (seqs [][]string) {
+	tm := fmt.Sprintf("acl time t=%d", now)
+	for n := 0; n <= sessionv2.MaxDelegationDepth+1; n++ {
+		seqs = append(seqs, []string{tm, "acl v2depth", tokChainLine(c, tokGenChain(c, n, now))})
+		for l := 0; l <= n; l++ {
+			ops := []string{tm}
+			for _, kind := range tokChainDefects {
+				ch := tokGenChain(c, n, now)
+				if tokChainDefect(c, ch, l, kind) {
+					ops = append(ops, tokChainLine(c, ch))
+				}
+			}
+			seqs = append(seqs, ops)
+		}
+	}
+	return seqs
+}
+
 func tokGen(c *runCtx, run func([]string)) {
 	nseq := c.n(160, 6000)
 	muts1 := []string{"exp", "nbf", "iat", "cnr", "objs", "verb", "iss"}
 	muts2 := []string{"exp", "nbf", "iat", "ctx", "subj", "iss"}
 	mutsB := []string{"exp", "nbf", "iat", "cnr", "tgt", "iss"}
+	for _, ops := range tokChainGrid(c, uint64(1000+c.rng.IntN(50))) {
+		run(ops)
+	}
 	for s := 0; s < nseq; s++ {
 		var ops []string
 		e := uint64(3 + c.rng.IntN(5))
@@ -600,7 +895,14 @@ func tokGen(c *runCtx, run func([]string)) {
 		// a small pool of tokens reused along the sequence, so that the caches are hit across epoch changes
 		var pool []string
 		for len(pool) < 5 {
-			switch c.rng.IntN(4) {
+			switch c.rng.IntN(5) {
+			case 4: // a delegated V2 token: 0..MaxDelegationDepth+1 origins, half of them with one defect at a random level
+				n := c.rng.IntN(sessionv2.MaxDelegationDepth + 2)
+				ch := tokGenChain(c, n, now)
+				if c.rng.IntN(2) == 0 {
+					tokChainDefect(c, ch, c.rng.IntN(n+1), tokChainDefects[c.rng.IntN(len(tokChainDefects))])
+				}
+				pool = append(pool, "v2c "+ch.fields())
 			case 0, 1:
 				t := tokV1{iss: 1 + c.rng.IntN(3), sig: 1, mut: "none", nbf: e - uint64(c.rng.IntN(2)), iat: e - uint64(c.rng.IntN(2)), exp: e + uint64(c.rng.IntN(3)),
 					cnr: 1 + c.rng.IntN(2), verb: 1 + c.rng.IntN(7)}
@@ -731,6 +1033,10 @@ func tokGen(c *runCtx, run func([]string)) {
 						rc = 1 + c.rng.IntN(2)
 					}
 					ops = append(ops, fmt.Sprintf("acl %s rv=%d rc=%d ro=%d", p, rv, rc, ro))
+				case strings.HasPrefix(p, "v2c "):
+					ch := tokParseChain(parseOp("acl " + p))
+					l := tokChainLine(c, ch)
+					ops = append(ops, l)
 				case strings.HasPrefix(p, "v2 "):
 					ops = append(ops, fmt.Sprintf("acl %s rv=%d rc=%d", p, 1+c.rng.IntN(6), 1+c.rng.IntN(2)))
 				default:
